@@ -632,6 +632,43 @@ func rulesC18(c *Ctx) {
 					}
 				}
 			}
+			if !ok {
+				// through a helper: the cache's address is handed to a function of the package behind which a put* method is
+				// called on a *methodCache parameter
+				for _, call := range f.AllCalls(f.Body, true) {
+					h := c.P.FuncOf(f.Callee(call))
+					if h == nil || h.Pkg != f.Pkg {
+						continue
+					}
+					passes := false
+					for _, a := range call.Args {
+						if u, isU := ast.Unparen(a).(*ast.UnaryExpr); isU && u.Op == token.AND {
+							if cs, isSel := ast.Unparen(u.X).(*ast.SelectorExpr); isSel && cs.Sel.Name == cache {
+								passes = true
+							}
+						}
+					}
+					if !passes {
+						continue
+					}
+					for _, k := range c.pkgClosure(h) {
+						for _, pc := range k.AllCalls(k.Body, true) {
+							cal := k.Callee(pc)
+							s2, isSel := ast.Unparen(pc.Fun).(*ast.SelectorExpr)
+							if cal == nil || !isSel || !strings.HasPrefix(cal.Name(), "put") {
+								continue
+							}
+							if pv, isV := k.ObjOf(s2.X).(*types.Var); isV {
+								for _, pp := range k.Root().Params() {
+									if pp == pv {
+										ok = true
+									}
+								}
+							}
+						}
+					}
+				}
+			}
 			c.Check(ok, fn+":fills-"+cache, f, nil, "%s fills %s (the cache its change notification invalidates)", fn, cache)
 		}
 	})
